@@ -56,12 +56,14 @@ def core : Core LfuState where
   insert1 s _ k v a _ := insert1 s k v a
   find1 s _ k peek := find1 s k peek
   erase1 := erase1
+  hasClear := false
   clear s := s
   clean s _ := (s, 0)
   age s _ := (s, 0)
   updateTtl s _ := s
   size s := s.ents.length
   capacity s := s.cap
+  dlOf _ _ _ := 0
   look s _ k := (getE s.ents k).map (fun e => (e.val, e.cnt))
 
 def init (cap : Nat) : LfuState := { cap, ents := [] }
@@ -145,12 +147,14 @@ def core : Core LfudaState where
   insert1 s now k v a _ := insert1 s now k v a
   find1 := find1
   erase1 := erase1
+  hasClear := false
   clear s := s
   clean s _ := (s, 0)
   age := dynAge
   updateTtl s _ := s
   size s := s.ents.length
   capacity s := s.cap
+  dlOf _ _ _ := 0
   look s _ k := (getE s.ents k).map (fun e => (e.val, e.cnt))
 
 def init (cap tickMs num den : Nat) : LfudaState :=
